@@ -22,7 +22,15 @@
 (*   SimpleMerge  : SimpleCache.cache_outputs/cache_jacobian decide "same entry" with   *)
 (*                  the tolerance, so data computed at x are filed under a stored x'    *)
 (*                  that is merely near x, and are later served for a third input near  *)
-(*                  x' but not near x.                                                  *)
+(*                  x' but not near x;                                                  *)
+(*   ShadowScan   : BaseFullCache.__getitem__ with a tolerance returns the FIRST stored  *)
+(*                  input within tolerance in scan order, whatever groups that entry     *)
+(*                  holds: an entry holding a Jacobian only (linearize(x2) served by the *)
+(*                  outputs of a close x1 files J under x2) shadows the later entry that *)
+(*                  holds the outputs of x3 ~ x2: the body runs at EVERY execution of x3;*)
+(*   StaleMembers : a process discipline (MDOChain) differentiates its members at THEIR  *)
+(*                  local data, i.e. at the input of the latest body run of the process, *)
+(*                  not at the input of the call, when the outputs came from the cache.  *)
 EXTENDS DiscCache
 
 CONSTANTS RefIn, RefOut, SimpleMerge,
@@ -37,15 +45,23 @@ CONSTANTS RefIn, RefOut, SimpleMerge,
           SelfUpd,     \* the lattice variable "x" is SELF-COUPLED (input and output) and the body updates the
                        \* array it received IN PLACE: x <- FX(x).  The array is the caller's: after a call in
                        \* which the body ran, the caller's cell holds FX(x) (after a cache hit it is untouched)
-          KeyAfterRun  \* refuted rule (switch): the entry is filed under the input array as it is AFTER the
+          KeyAfterRun, \* refuted rule (switch): the entry is filed under the input array as it is AFTER the
                        \* body ran (no pristine copy of the self-coupled inputs taken before the run)
+          ShadowScan,  \* refuted rule (switch), see above
+          Process,     \* the discipline is a PROCESS discipline (a chain of member disciplines with the cache
+                       \* at the level of the chain): its Jacobian is assembled from the members' Jacobians
+          StaleMembers,\* refuted rule (switch), see above
+          Diff0        \* differentiated inputs/outputs declared before the history starts (level 0, 1 or 2)
 
 VARIABLES entries,   \* sequence of entry records (index order of the cache)
           dHasJac,   \* discipline._has_jacobian
           dJac,      \* discipline.jac as [src, lvl]   (lvl = 0: empty)
           diffLvl,   \* differentiated inputs/outputs declared so far (0, 1, 2)
-          buf        \* point whose outputs are in the discipline's output buffer (Inplace)
-ivars == <<entries, dHasJac, dJac, diffLvl, buf>>
+          buf,       \* point whose outputs are in the discipline's output buffer (Inplace)
+          fromFile   \* HDF5: the entries whose hash index was rebuilt from the hashes stored in the file
+                     \* (Reopen: all of them; entries written by this cache object are indexed with the
+                     \* hash of the input data as passed).  A call served after a Reopen goes through it.
+ivars == <<entries, dHasJac, dJac, diffLvl, buf, fromFile>>
 vars  == <<avars, ivars>>
 
 NoCell == "lit"
@@ -54,15 +70,18 @@ NoCell == "lit"
 FX(i) == (i % Len(XV)) + 1
 ASSUME PrintT(<<"FX", [i \in XI |-> FX(i)]>>)
 ASSUME SelfUpd => (LinModes = {})     \* execution histories only (see c05.py)
+ASSUME Process => (~SelfUpd /\ ~Inplace)
 H(p) == IF Collide THEN <<p[1] % 2, 0>> ELSE p
 \* the hash table, printed once so that the harness can give the real caches a hash function with exactly
 \* these collisions (test double for the hash library, see c05.py)
 ASSUME PrintT(<<"HASH", [p \in Points |-> H(p)]>>)
 \* what the stored groups of an entry read NOW
-StoredIn(e)  == IF RefIn /\ e.ref # NoCell THEN <<cell[e.ref], e.in[2]>> ELSE e.in
+StoredInAt(e, cl) == IF RefIn /\ e.ref # NoCell THEN <<cl[e.ref], e.in[2]>> ELSE e.in
+StoredIn(e)  == StoredInAt(e, cell)
 StoredOut(e) == IF RefOut /\ Inplace THEN buf ELSE e.osrc
 \* compare_dict_of_arrays(new, cached, tolerance): the reference norm is that of the NEW input
-MatchTol(q, c) == IF Tol = 0 THEN q = c
+\* (values without a norm - strings, lists - are within tolerance iff equal)
+MatchTol(q, c) == IF Tol = 0 \/ ~Numeric(vkind) THEN q = c
                   ELSE q[2] = c[2] /\ NearRef(q[1], c[1], XV[q[1]])
 Idx == 1..Len(entries)
 Min(S) == CHOOSE i \in S : \A j \in S : i <= j
@@ -71,13 +90,19 @@ Min(S) == CHOOSE i \in S : \A j \in S : i <= j
 FirstOfHash(i) == Min({j \in Idx : H(entries[j].in) = H(entries[i].in)})
 Before(i, j) == \/ FirstOfHash(i) < FirstOfHash(j)
                 \/ (FirstOfHash(i) = FirstOfHash(j) /\ i <= j)
+\* tolerance scan of a full cache: the stored inputs within tolerance; one that holds OUTPUTS is
+\* preferred to one that does not (intended rule; ShadowScan: no preference)
+Candidates(x) ==
+    LET c  == {i \in Idx : MatchTol(x, StoredIn(entries[i]))}
+        co == {i \in c : entries[i].hasOut}
+    IN IF ShadowScan \/ co = {} THEN c ELSE co
 Lookup(x) ==
     IF Kind = "simple"
     THEN (IF Len(entries) = 1 /\ MatchTol(x, StoredIn(entries[1])) THEN 1 ELSE 0)
     ELSE IF Tol = 0
     THEN LET c == {i \in Idx : H(entries[i].in) = H(x) /\ StoredIn(entries[i]) = x}
          IN IF c = {} THEN 0 ELSE Min(c)
-    ELSE LET c == {i \in Idx : MatchTol(x, StoredIn(entries[i]))}
+    ELSE LET c == Candidates(x)
          IN IF c = {} THEN 0 ELSE CHOOSE i \in c : \A j \in c : Before(i, j)
 
 \* ---- "is this input already stored" when writing into the table es
@@ -98,10 +123,10 @@ WithOutputs(es, k, o, ref, i) ==
     IF i # 0 THEN (IF es[i].hasOut THEN es ELSE [es EXCEPT ![i].hasOut = TRUE, ![i].osrc = o])
     ELSE LET e == [NewEntry(k, ref) EXCEPT !.hasOut = TRUE, !.osrc = o]
          IN IF Kind = "simple" THEN <<e>> ELSE Append(es, e)
-\* cache_jacobian(x, J(x) restricted to level l)
-WithJacobian(es, x, ref, i, l) ==
-    IF i # 0 THEN (IF es[i].jl > 0 THEN es ELSE [es EXCEPT ![i].jl = l, ![i].jsrc = x])
-    ELSE LET e == [NewEntry(x, ref) EXCEPT !.jl = l, !.jsrc = x]
+\* cache_jacobian(x, J(o) restricted to level l)   (o = x: the Jacobian at the input of the call)
+WithJacobian(es, x, o, ref, i, l) ==
+    IF i # 0 THEN (IF es[i].jl > 0 THEN es ELSE [es EXCEPT ![i].jl = l, ![i].jsrc = o])
+    ELSE LET e == [NewEntry(x, ref) EXCEPT !.jl = l, !.jsrc = o]
          IN IF Kind = "simple" THEN <<e>> ELSE Append(es, e)
 
 NoJac == [src |-> P0, lvl |-> 0]
@@ -110,7 +135,7 @@ NoJac == [src |-> P0, lvl |-> 0]
 LookupSet(x) ==
     IF Kind = "none" THEN {0}
     ELSE IF AnyMatch /\ Tol > 0 /\ Full
-    THEN LET c == {i \in Idx : MatchTol(x, StoredIn(entries[i]))} IN IF c = {} THEN {0} ELSE c
+    THEN LET c == Candidates(x) IN IF c = {} THEN {0} ELSE c
     ELSE {Lookup(x)}
 
 \* ---- BaseDiscipline.execute as a function of the current state and of the entry i the lookup
@@ -131,7 +156,7 @@ DoExecute(x, ref) ==
     LET f == ExecEffect(x, ref, i)
         r == [NoRet EXCEPT !.op = "exec", !.x = x, !.hasOut = TRUE, !.src = f.src, !.ran = f.ran]
     IN /\ entries' = f.es /\ dHasJac' = f.hj /\ dJac' = f.jac /\ buf' = f.buf
-       /\ Observe(r) /\ UNCHANGED diffLvl
+       /\ Observe(r) /\ UNCHANGED <<diffLvl, fromFile>>
        /\ cell' = IF SelfUpd /\ f.ran /\ ref # NoCell THEN [cell EXCEPT ![ref] = FX(cell[ref])] ELSE cell
 
 \* ---- Discipline.linearize(x, compute_all_jacobians = (req = 3), execute = ex)
@@ -141,44 +166,54 @@ DoLinearize(x, ref, req, ex) ==
                ELSE [ran |-> FALSE, src |-> P0, es |-> entries, hj |-> dHasJac, jac |-> dJac, buf |-> buf]
         \* "if self._has_jacobian and self.jac" and the requested pairs are all there
         reuse == f.hj /\ f.jac.lvl >= req
+        \* where the Jacobian body differentiates: at the input of the call; a process discipline
+        \* assembles the Jacobians of its members, which (StaleMembers) are where the latest body run
+        \* of the process left them when the outputs of this call came from the cache
+        jat == IF Process /\ StaleMembers /\ ~f.ran THEN lastRun ELSE x
         \* cache_jacobian looks the input up in the table as it is after cache_outputs
         es2 == IF reuse \/ Kind = "none" THEN f.es
-               ELSE WithJacobian(f.es, x, ref, StoreIdx(f.es, x), req)
-        j   == IF reuse THEN f.jac ELSE [src |-> x, lvl |-> req]
+               ELSE WithJacobian(f.es, x, jat, ref, StoreIdx(f.es, x), req)
+        j   == IF reuse THEN f.jac ELSE [src |-> jat, lvl |-> req]
         r   == [op |-> "lin", x |-> x, hasOut |-> ex, src |-> f.src, ran |-> f.ran, req |-> req,
                 jl |-> j.lvl, jsrc |-> j.src, lin |-> ~reuse]
     IN /\ (~ex => (ret.op # "init" /\ ret.x = x))     \* execute=False: the discipline was just executed at x
        /\ entries' = es2 /\ dHasJac' = f.hj /\ dJac' = j /\ buf' = f.buf
-       /\ Observe(r) /\ UNCHANGED <<cell, diffLvl>>
+       /\ Observe(r) /\ UNCHANGED <<cell, diffLvl, fromFile>>
 
 \* ---- the actions (labels of the state graph)
 \* (the leading conjunct keeps the action's own name and arguments on the edges of the dumped graph)
 Execute(c, za)    == /\ c \in Cells /\ DoExecute(<<cell[c], ZI(za)>>, c)
 ExecuteLit(xi)    == /\ xi \in XI /\ DoExecute(<<xi, 0>>, NoCell)
-LinearizeLit(xi)  == /\ xi \in XI /\ LinModes # {} /\ DoLinearize(<<xi, 0>>, NoCell, 3, TRUE)
+LinearizeLit(xi)  == /\ xi \in XI /\ "all" \in LinModes /\ DoLinearize(<<xi, 0>>, NoCell, 3, TRUE)
 Linearize(c, za, mode, ex) ==
     /\ (mode = "sub" => diffLvl >= 1)
     /\ DoLinearize(<<cell[c], ZI(za)>>, c, IF mode = "all" THEN 3 ELSE diffLvl, ex)
-MutateCell(c, v)  == /\ cell[c] # v /\ cell' = [cell EXCEPT ![c] = v] /\ UNCHANGED <<hvars, ivars>>
+\* in-place edit by the caller; what the entries read afterwards vs before (the output groups are
+\* never the caller's)
+MutateCell(c, v)  == /\ cell[c] # v /\ cell' = [cell EXCEPT ![c] = v]
+                     /\ ObserveMutate(\A i \in Idx : StoredInAt(entries[i], cell') = StoredIn(entries[i]))
+                     /\ UNCHANGED ivars
 SetDiff           == /\ diffLvl < 2 /\ diffLvl' = diffLvl + 1
-                     /\ UNCHANGED <<avars, entries, dHasJac, dJac, buf>>
+                     /\ UNCHANGED <<avars, entries, dHasJac, dJac, buf, fromFile>>
 \* cache.clear().  HDF5Cache.clear() on a node that was never written raises KeyError (D13, outside
 \* the listed statement): the action is offered on a non-empty table only.
 ClearCache        == /\ Kind # "none" /\ Len(entries) > 0
-                     /\ entries' = <<>> /\ ObserveReset
+                     /\ entries' = <<>> /\ fromFile' = {} /\ ObserveReset
                      /\ UNCHANGED <<cell, dHasJac, dJac, diffLvl, buf>>
 \* discipline.set_cache(same type): a new cache object.  In memory: empty.  HDF5 on the same
 \* file and node (Reopen): the entries of the file.
 SetCache          == /\ Kind \in {"simple", "memShared", "memLocal"}
-                     /\ entries' = <<>> /\ ObserveReset
+                     /\ entries' = <<>> /\ fromFile' = {} /\ ObserveReset
                      /\ UNCHANGED <<cell, dHasJac, dJac, diffLvl, buf>>
 Reopen            == /\ Kind = "hdf5"
                      /\ ObserveReopen(TRUE)        \* the table is the file: entries' = entries
-                     /\ UNCHANGED <<cell, ivars>>
+                     /\ fromFile' = Idx
+                     /\ UNCHANGED <<cell, entries, dHasJac, dJac, diffLvl, buf>>
 
 Init == /\ cell = [c \in Cells |-> IF c = "c1" THEN 1 ELSE 2]
+        /\ vkind \in VKinds
         /\ HInit
-        /\ entries = <<>> /\ dHasJac = FALSE /\ dJac = NoJac /\ diffLvl = 0 /\ buf = P0
+        /\ entries = <<>> /\ dHasJac = FALSE /\ dJac = NoJac /\ diffLvl = Diff0 /\ buf = P0 /\ fromFile = {}
 Next == \/ \E c \in Cells, za \in ZArgs : Execute(c, za)
         \/ \E xi \in LitXs : ExecuteLit(xi) \/ LinearizeLit(xi)
         \/ \E c \in Cells, za \in LinZArgs, m \in LinModes, ex \in ExecFlags : Linearize(c, za, m, ex)
@@ -187,8 +222,8 @@ Next == \/ \E c \in Cells, za \in ZArgs : Execute(c, za)
 ISpec == Init /\ [][Next]_vars
 
 ---------------------------------------------------------------------------------
-\* CallerCannotCorrupt: what an entry reads now is what was stored
-CallerCannotCorrupt ==
+\* StoredByCopy (the structural form of CallerCannotCorrupt): what an entry reads now is what was stored
+StoredByCopy ==
     \A i \in Idx : /\ StoredIn(entries[i]) = entries[i].in
                    /\ (entries[i].hasOut => StoredOut(entries[i]) = entries[i].osrc)
 \* the entry table is coherent with the history: stored groups were computed by a body run,
